@@ -11,6 +11,8 @@ import (
 	"strings"
 	"sync/atomic"
 
+	"github.com/willabides/rjson"
+
 	h "verif/internal/harness"
 	"verif/internal/refmodel"
 	"verif/internal/workload"
@@ -203,4 +205,19 @@ func errStr(err error) string {
 		return "<nil>"
 	}
 	return err.Error()
+}
+
+// deepDirtyBuffer returns a Buffer whose stack has been grown far beyond the depth limit and
+// left dirty by OTHER buffer-taking functions: the handler traversals have no depth limit of
+// their own and share the Buffer type, so a caller may legitimately hand such a buffer to
+// Valid / SkipValue / SkipValueFast afterwards (found necessary by seeded change C01/m2).
+func deepDirtyBuffer() *rjson.Buffer {
+	var b rjson.Buffer
+	deep := bytes.Repeat([]byte("["), 30000)
+	rjson.HandleArrayValues(deep, nopArrayHandler{}, &b) // unclosed: aborted at depth 30,000
+	obj := append(bytes.Repeat([]byte(`[{"a":`), 8000), []byte("0")...)
+	obj = append(obj, bytes.Repeat([]byte("}]"), 8000)...)
+	rjson.HandleArrayValues(obj, nopArrayHandler{}, &b) // complete 16,000-deep document
+	rjson.HandleObjectValues([]byte(`{"k":`+string(deep)), nopObjectHandler{}, &b)
+	return &b
 }
